@@ -378,9 +378,7 @@ def fast_path_guard(an, fn, node, data_expr, avoid=None, assume=()):
     field and the receiver's, where the data handed on is X (or comes from iterating X)?  With *avoid* (the nodes that
     re-define the data variable) only the paths on which the original value is still live are considered."""
     cls = fn.cls
-    atoms = guard_atoms(an, fn, node, avoid)      # dominating outcomes, local flags written out
-    for e_, truth_ in assume:                     # the test of the conditional expression the data sits in
-        _split_atoms(e_, truth_, node, atoms)
+    atoms = guard_atoms(an, fn, node, avoid, extra=assume)      # dominating outcomes (and the tests of enclosing conditional expressions), local flags written out
     xs = set()
     for e, truth, t in atoms:
         if truth and isinstance(e, ast.Call) and isinstance(e.func, ast.Name) and e.func.id == "isinstance" \
@@ -409,16 +407,23 @@ def fast_path_guard(an, fn, node, data_expr, avoid=None, assume=()):
     if not good:
         return False, "isinstance guard present but no identity test of the item/dict field"
     # the data must be x itself or elements obtained by iterating x
-    if isinstance(data_expr, ast.Name) and data_expr.id in good and not avoid:
+    if isinstance(data_expr, ast.Name) and data_expr.id in good:
         # the guarded local itself (`source = iterable or []` ... guard on source ... list.__init__(self, source)): the same
-        # definitions reach the guard and the use
+        # definitions reach the guard and the use -- or, with *avoid*, the one definition the guard saw is among those that reach
+        # the use and the others are the avoided re-definitions
         from engine.defuse import reaching_defs
         rd_ = reaching_defs(fn)
         tests_ = [t for e, truth, t in atoms if truth and isinstance(e, ast.Call) and isinstance(e.func, ast.Name) and e.func.id == "isinstance"
                   and isinstance(e.args[0], ast.Name) and e.args[0].id == data_expr.id]
-        here = {id(d) for d in rd_.reaching(node, data_expr.id)}
-        if tests_ and all({id(d) for d in rd_.reaching(t, data_expr.id)} == here for t in tests_):
+        here = {id(d): d for d in rd_.reaching(node, data_expr.id)}
+        if tests_ and not avoid and all({id(d) for d in rd_.reaching(t, data_expr.id)} == set(here) for t in tests_):
             return True, "same-field proxy fast path: elements were validated by the same field when they entered %s" % sorted(good)
+        if tests_ and avoid:
+            seen_ = [{id(d) for d in rd_.reaching(t, data_expr.id)} for t in tests_]
+            if all(len(x_) == 1 and x_ <= set(here) for x_ in seen_) and len({next(iter(x_)) for x_ in seen_}) == 1:
+                others = [d for i_, d in here.items() if i_ not in seen_[0]]
+                if all(d.node in avoid for d in others):
+                    return True, "same-field proxy fast path: elements were validated by the same field when they entered %s" % sorted(good)
     for kind, payload in value_sources(fn, data_expr, node):
         if kind == "param" and payload in good:
             continue
@@ -529,6 +534,12 @@ def arg_validated(an, fn, expr, node, form, depth=0, use_node=None, assume=()):
         for d in defs:
             if d.kind == "assign" and d.value is not None:
                 ok, why = arg_validated(an, fn, d.value, d.node, form, depth + 1, use_node)
+                if not ok and len(defs) > 1:
+                    # `if not fast: x = validated(x)` ... use(x) where x is a local: this definition arrives only along the fast path
+                    others_ = {dd.node for dd in defs if dd is not d and dd.node is not None}
+                    ok2, why2 = fast_path_guard(an, fn, use_node, expr, avoid=others_, assume=assume)
+                    if ok2:
+                        ok, why = ok2, why2
             elif d.kind == "unpack" and index is not None and d.index == index and _proxy_validate_call(an, fn, d.value):
                 ok, why = True, "component %d of self._validate(...)" % index
             elif d.kind == "for" and isinstance(d.value, ast.Name) and d.node is not None:
